@@ -15,6 +15,14 @@ calls sprinkled in) plus several operation sequences, each run on a fresh reader
                to a negative target is outside the property: from there on only model-vs-implementation).
                The model driver is fed the decompressed chunk boundaries `_fill_buffer` really sees
                (`zlib.decompressobj` on 8192-byte raw blocks, empty chunks kept).
+* regimes    : `segs` payloads = segments whose compression ratios differ by orders of magnitude (noise about 1, 16-symbol
+               noise about 2, text about 5, periodic data and runs of one byte up to about 1000) with the dominating segment at
+               the start, in the middle, at the END of the stream or alone; a handful of payloads of 1.1 to 2.6 MiB (thorough:
+               up to 4 MiB) whose single raw block inflates to megabytes. The driver gets such payloads as a compact
+               description (`@LEN*PATTERN,…`) that both sides expand.
+* trailing   : bytes after the end-of-stream marker (zero padding, random bytes, little-endian integers that look like a
+               size field): the standard decoders stop at the marker, the reference stream stays io.BytesIO(payload); extra
+               sequences seek relative to the END in a chosen state of the object (fresh, mid-stream, EOF seen, rewound).
 * malformed  : negative seek targets followed by more operations, invalid whence, every operation after
                `close`, `write` on a reader — model vs implementation only.
 """
@@ -41,6 +49,8 @@ REQUIRED_THEOREMS = [
     "C13.read_all_reaches_eof",
     "C13.write_concat",
     "C13.write_roundtrip",
+    "C13.trailing_bytes_same_stream",
+    "C13.seek_end_in_every_state",
 ]
 TRUSTED_EXTRA = [
     "modelled, not verified: CPython's zlib codec (zlib.compressobj / zlib.decompressobj). The model is fed the decompressed "
@@ -55,6 +65,10 @@ TRUSTED_EXTRA = [
 _BLOCK = 8192  # joblib.compressor._BUFFER_SIZE
 _WBITS = {"zlib": zlib.MAX_WBITS, "gzip": 31}
 _KINDS = ["random", "rep", "period", "text", "nonl"]
+_MIB = 1 << 20
+_MAX_LEN = 1 << 22
+_SEG_KINDS = ["run", "period", "noise", "nib", "text"]
+_SEG_HEX_CAP = 20000  # segments that are sent to the driver byte by byte stay below this length
 _LEN_QUICK = [0, 1, 2, 100, 8191, 8192, 8193, 16383, 16384, 16385, 24576, 24577]
 _LEN_MORE = [3, 4, 5, 6, 255, 256, 257, 32767, 32768, 32769, 40000, 49152, 65535, 65536, 65537, 70000]
 _CHUNK_SIZES = [1, 7, 100, 8191, 8192, 8193, 20000]
@@ -65,7 +79,12 @@ RULE = (
     "one repeated byte / short period / text with many newlines / no newline at all; sequences of <= 25 (thorough <= 200) "
     "operations read(n)/read()/readinto/readline/tell/seek(off, 0|1|2) with boundary-biased arguments; every operation is "
     "compared three ways (implementation, io.BytesIO oracle, Lean model). evaluations = operations compared "
-    "(read side and write side). non-trivial = payload non-empty and the sequence has at least one read-like "
+    "(read side and write side). Further groups: payloads built from segments of very different compression ratios "
+    "(about 1 to about 1000 decompressed bytes per raw byte) with the dominating run at the start / middle / end / alone, "
+    "lengths up to 600000 and a handful of 1.1-2.6 MiB (thorough: up to 4 MiB); files with 1..20000 bytes after the end of the "
+    "compressed stream (zeros, random, little-endian 32-bit integers near the payload size), reference stream = the payload; "
+    "end-seek sequences: seek(-k, 2) in a chosen state (fresh, mid-stream, after EOF, after a rewind) followed by reads. "
+    "non-trivial = payload non-empty and the sequence has at least one read-like "
     "operation (read/readinto/readline); distinct by sha1 of (payload spec, class, level, chunking, operations)"
 )
 ASSUMPTIONS = [
@@ -74,15 +93,42 @@ ASSUMPTIONS = [
     "readline is only generated where the model's cost (quadratic in the line length) fits the budget: lines up to "
     "about 9000 bytes in the quick tier, 14000 in thorough",
     "compressed input is well-formed (written by the class under test and accepted by the standard decoder, else by "
-    "zlib.compressobj with the same parameters); damaged files are property C14",
+    "zlib.compressobj with the same parameters), possibly followed by bytes that are not part of the stream (the standard "
+    "decoder reports them as unused_data; a second gzip member is not generated); damaged files are property C14",
 ]
 
 
 # ----------------------------------------------------------------------------- payloads
 
 
+def _seg_pattern(seg):
+    """(pattern, length) of one segment of a `segs` payload: the segment is the pattern repeated cyclically."""
+    kind, ln, seed = seg
+    if kind == "run":
+        return bytes([seed % 256]), ln
+    r = random.Random(seed)
+    if kind == "period":
+        return r.randbytes(2 + seed % 8), ln
+    if kind == "noise":  # incompressible: about one decompressed byte per raw byte
+        return r.randbytes(max(ln, 1)), ln
+    if kind == "nib":  # 16 symbols: about two decompressed bytes per raw byte
+        return bytes(r.choices(b"0123456789abcdef", k=max(ln, 1))), ln
+    if kind == "text":  # short lines over a small alphabet
+        out = bytearray()
+        while len(out) < max(ln, 1):
+            out += bytes(r.choices(b"etaoin shrdlu", k=r.choice([0, 1, 5, 30, 79]))) + b"\n"
+        return bytes(out[:max(ln, 1)]), ln
+    raise core.InfraError(f"unknown segment kind {kind!r}")
+
+
 def _payload(spec):
     kind, n, seed = spec["kind"], spec["length"], spec["seed"]
+    if kind == "segs":
+        out = []
+        for seg in spec["segs"]:
+            pat, ln = _seg_pattern(seg)
+            out.append((pat * (ln // len(pat) + 1))[:ln])
+        return b"".join(out)
     if n == 0:
         return b""
     if kind == "random":
@@ -147,19 +193,21 @@ def _under(raw, k):
     return io.BytesIO(raw) if not k else _Chunky(raw, k)
 
 
-def _chunk_lens(raw, wbits, k=None):
+def _chunk_lens(raw, wbits, k=None, rawlens=None):
     """Lengths of the decompressed chunks exactly as `_fill_buffer` produces them (zeros kept) when the underlying file
-    object returns at most k bytes per read (None: full reads)."""
+    object returns at most k bytes per read (None: full reads). `rawlens`, if a list, receives the raw block lengths."""
     d = zlib.decompressobj(wbits)
     fp = _under(raw, k)
     lens = []
     while True:
-        if d.eof and d.unused_data:
-            break  # trailing bytes: property C14, never spin here
+        if d.eof:
+            break  # end-of-stream marker seen: whatever follows in the file is not part of the stream
         rawblock = d.unused_data or fp.read(_BLOCK)
         if not rawblock:
             break
         lens.append(len(d.decompress(rawblock)))
+        if rawlens is not None:
+            rawlens.append(len(rawblock))
     return lens
 
 
@@ -181,6 +229,31 @@ def _cb(tag, data):
 
 def _hex(payload):
     return payload.hex() if payload else "-"
+
+
+def _ptoken(spec, payload):
+    """The payload as the driver reads it: hex, or for `segs` payloads the compact description LEN*PATTERN,… (a run of
+    megabytes costs a few characters; both sides expand it the same way)."""
+    if spec["kind"] != "segs" or not payload:
+        return _hex(payload)
+    return "@" + ",".join("%d*%s" % (ln, pat.hex()) for pat, ln in map(_seg_pattern, spec["segs"]))
+
+
+def _trail_bytes(trail, n):
+    """Bytes that follow the compressed stream in the file (not part of it: the standard decoders stop at the
+    end-of-stream marker and report them as unused data)."""
+    if not trail:
+        return b""
+    kind, k, seed = trail["kind"], trail["length"], trail["seed"]
+    if kind == "zeros":
+        return bytes(k)
+    if kind == "random":
+        return random.Random(seed).randbytes(k)
+    if kind == "le32":  # little-endian 32-bit integers: plausible but wrong sizes / checksums
+        vals = [0, 1, max(n - 1, 0), n + 1, n // 2, 2 * n + 1, seed]
+        r = random.Random(seed)
+        return b"".join((r.choice(vals) & 0xFFFFFFFF).to_bytes(4, "little") for _ in range(k))
+    raise core.InfraError(f"unknown trail kind {kind!r}")
 
 
 def _op_line(op):
@@ -415,6 +488,72 @@ def _gen_seq(rng, payload, bounds, maxlen, budget, neg_prob=None):
     return ops
 
 
+_END_STATES = ["fresh", "fresh", "mid", "mid", "mid-seek", "eof", "eof", "rewound", "eof-rewound", "eof-rewound"]
+
+
+def _gen_endseq(rng, payload, bounds):
+    """A seek relative to the END issued in a chosen state of the object (fresh; mid-stream after reads or after a
+    forward seek; after EOF was seen; after a rewind, with or without EOF seen before), followed by reads that show
+    where the object really is. All targets are >= 0 (inside the property)."""
+    n, pos, ops = len(payload), 0, []
+    state = rng.choice(_END_STATES)
+    if rng.random() < 0.3:
+        ops.append(["tell"])
+    if state in ("mid", "rewound"):
+        for _ in range(rng.randint(1, 3)):
+            x = rng.choice(_sizes(n, pos, bounds))
+            ops.append([rng.choice(["read", "read", "readinto"]), x])
+            pos = min(n, pos + x)
+    elif state == "mid-seek":
+        op, t = _gen_seek(rng, n, pos, bounds)
+        while len(op) > 2 and op[2] == 2:
+            op, t = _gen_seek(rng, n, pos, bounds)
+        ops.append(op)
+        pos = min(t, n)
+    elif state in ("eof", "eof-rewound"):
+        how = rng.choice(["readall", "readall", "big", "steps", "seek-past"])
+        if how == "readall":
+            if rng.random() < 0.5:
+                ops.append(["read", rng.choice([1, 100, 8193])])
+            ops.append(rng.choice([["read"], ["read", -1]]))
+        elif how == "big":
+            ops.append(["read", n + rng.choice([1, 1, 5, 8192])])
+        elif how == "steps":
+            ops += [["read", max(1, n // 2 + 1)], ["read", max(1, n // 2 + 1)], ["read", 3]]
+        else:
+            ops += [["seek", n + rng.choice([0, 1, 100]), 0], ["read", 1]]
+        pos = n
+    if state in ("rewound", "eof-rewound"):
+        t = rng.choice([0, 0, 1, pos // 2, max(pos - 1, 0)])
+        ops.append(rng.choice([["seek", t], ["seek", t, 0], ["seek", t - pos, 1]]))
+        pos = min(t, n)
+        if rng.random() < 0.5:
+            x = rng.choice([1, 5, 100, 8192])
+            ops.append(["read", x])
+            pos = min(n, pos + x)
+    for j in range(rng.randint(1, 3)):
+        k = rng.choice([0, 0, 1, 2, 5, 100, 8192, n, n // 2, n - 1, n // 3, rng.randint(0, n), -1, -7, -8192])
+        k = min(k, n)  # k < 0: a target past the end (clamps to the end)
+        ops.append(["seek", -k, 2])
+        pos = n - max(k, 0)
+        for _ in range(rng.randint(1, 3)):
+            r = rng.random()
+            if r < 0.25:
+                ops.append(["tell"])
+            elif r < 0.65:
+                x = rng.choice([1, 2, 5, 100, 8193, max(k, 0), max(k, 0) + 1, max(k - 1, 0)])
+                ops.append([rng.choice(["read", "readinto"]), x])
+                pos = min(n, pos + x)
+            elif r < 0.85:
+                ops.append(["read"])
+                pos = n
+            else:
+                t = rng.randint(0, n)
+                ops.append(["seek", t - pos, 1])
+                pos = t
+    return ops
+
+
 def _gen_malformed_seq(rng, payload, bounds, typ, readline_ok):
     n = len(payload)
     small = [["read", 1], ["read", 2], ["read", 3], ["read", 5], ["read", 100], ["read", 8193], ["read"], ["read", -1],
@@ -454,21 +593,64 @@ def _gen_malformed_seq(rng, payload, bounds, typ, readline_ok):
     return ops
 
 
-def _gen_file(rng, spec, cls, level, nseq, maxlen, budget, cap, chunking=None, stream="main"):
+def _gen_file(rng, spec, cls, level, nseq, maxlen, budget, cap, chunking=None, stream="main", trail=None, endseqs=0,
+              under="draw"):
     payload = _payload(spec)
     if chunking is None:
         chunking = _gen_chunking(rng, len(payload), cap)
     bounds = _bounds(_chunk_lens(_ref_compress(payload, cls, level), _WBITS[cls]))
     if stream == "main":
         seqs = [_gen_seq(rng, payload, bounds, maxlen, budget) for _ in range(nseq)]
+        seqs += [_gen_endseq(rng, payload, bounds) for _ in range(endseqs)]
     else:
         ok = spec["kind"] == "text" or len(payload) <= 2048
         types = ["neg", "whence", "close", "write", "neg", "neg"]
         seqs = [_gen_malformed_seq(rng, payload, bounds, types[i % len(types)], ok) for i in range(nseq)]
     # the underlying file object of the read side: full reads (io.BytesIO) or short reads of at most k bytes
-    under = rng.choice([1, 7, 1000, 4096, 8191, rng.randint(1, 9000)]) if rng.random() < 0.3 else None
-    return dict(stream=stream, payload=spec, cls=cls, level=level, chunking=chunking, wops=_gen_wops(rng, chunking), seqs=seqs,
+    if under in ("draw", "tame"):
+        tame = under == "tame"
+        under = rng.choice([1, 7, 1000, 4096, 8191, rng.randint(1, 9000)]) if rng.random() < 0.3 else None
+        if tame and under and under < 1000 and len(payload) > _BLOCK and spec["kind"] not in ("rep", "period"):
+            under += 1000  # thousands of one-byte chunks of a long payload: the model's read() is quadratic in them
+    case = dict(stream=stream, payload=spec, cls=cls, level=level, chunking=chunking, wops=_gen_wops(rng, chunking), seqs=seqs,
                 under=under)
+    if trail:
+        case["trail"] = trail
+    return case
+
+
+def _gen_trail(rng):
+    kind = rng.choice(["zeros", "zeros", "random", "random", "le32", "le32"])
+    if kind == "le32":
+        k = rng.choice([1, 1, 2, 2, 3])
+    else:
+        k = rng.choice([1, 2, 3, 4, 4, 5, 8, 8, 9, 100, 511, 512, 8191, 8192, 8193, 20000])
+    return dict(kind=kind, length=k, seed=rng.randrange(1 << 30))
+
+
+def _gen_segs(rng, big, where):
+    """A payload made of segments whose compression ratios differ by orders of magnitude: about 1 (noise), about 2
+    (nib), about 5 (text), hundreds to a thousand (period, run). `big`: the length of the dominating run/period segment;
+    `where`: its place (start | middle | end | all)."""
+    def small():
+        k = rng.choice(["noise", "noise", "nib", "text", "run", "period"])
+        ln = rng.choice([1, 2, 100, 3000, 8192, 8193, _SEG_HEX_CAP]) if k in ("noise", "nib", "text") else \
+            rng.choice([1, 100, 8192, 70000])
+        return [k, ln, rng.randrange(1 << 30)]
+
+    def dominant():
+        k = rng.choice(["run", "run", "period"])
+        seed = rng.randrange(1 << 30)
+        if k == "run" and rng.random() < 0.4:
+            seed -= seed % 256  # zeros
+        elif k == "run" and rng.random() < 0.15:
+            seed = seed - seed % 256 + 10  # newlines only
+        return [k, big, seed]
+
+    before = [small() for _ in range(rng.randint(1, 2))] if where in ("middle", "end") else []
+    after = [small() for _ in range(rng.randint(1, 2))] if where in ("middle", "start") else []
+    segs = before + [dominant()] + after
+    return dict(kind="segs", length=sum(x[1] for x in segs), seed=0, segs=segs)
 
 
 def _spec(rng, kind, n):
@@ -508,12 +690,15 @@ def _gen_cases(rng, mode):
     if mode == "quick":
         rounds, lengths, nseq, maxlen, budget, cap = 5, _LEN_QUICK, 3, 25, 80_000_000, 48
         n_random, n_tuned, n_mal, tiny_rounds = 100, 16, 80, 1
+        n_mid, n_big, n_trail = 24, 6, 60
     elif mode == "thorough":
         rounds, lengths, nseq, maxlen, budget, cap = 4, _LEN_QUICK + _LEN_MORE, 4, 200, 200_000_000, 300
         n_random, n_tuned, n_mal, tiny_rounds = 220, 40, 300, 2
+        n_mid, n_big, n_trail = 120, 24, 240
     else:
         rounds, lengths, nseq, maxlen, budget, cap = 7, _LEN_QUICK + _LEN_MORE[:9], 4, 60, 80_000_000, 64
         n_random, n_tuned, n_mal, tiny_rounds = 200, 36, 300, 3
+        n_mid, n_big, n_trail = 60, 8, 150
     combos = _combos(rng)
     cases = []
     # 1. grid: every boundary length x every kind
@@ -552,6 +737,32 @@ def _gen_cases(rng, mode):
         n = rng.choice([0, 1, 2, 5, 100, 100, 8192, 8193, 8193, 24577])
         kind = rng.choice(_KINDS)
         cases.append(_gen_file(rng, _spec(rng, kind, n), cls, lv, 4, maxlen, budget, cap, stream="malformed"))
+    # 6. every regime of "decompressed bytes per raw block" (about 1, a few, hundreds, a thousand) at the start, in the
+    #    middle and at the END of the stream; a handful of payloads of megabytes (one raw block inflates to megabytes)
+    places = ["end", "start", "middle", "all", "end", "middle"]
+    for i in range(n_mid):
+        cls, lv = next(combos)
+        big = rng.choice([9000, 70000, 70000, 200000, 300000, 600000])
+        spec = _gen_segs(rng, big, places[i % len(places)])
+        trail = _gen_trail(rng) if i % 4 == 3 else None
+        under = "tame" if big <= 70000 else rng.choice([None, None, 1000, 4096, 8191])  # model cost: chunks x length
+        cases.append(_gen_file(rng, spec, cls, lv, 2, min(maxlen, 40), budget // 2, 12, trail=trail, endseqs=1, under=under))
+    for i in range(n_big):
+        cls, lv = next(combos)
+        hi = (_MAX_LEN - 200000) if mode == "thorough" and i % 4 == 3 else 2_600_000
+        spec = _gen_segs(rng, rng.randint(_MIB + 100_000, hi), places[i % len(places)])
+        trail = _gen_trail(rng) if i % 3 == 2 else None
+        under = rng.choice([None, None, 4096, 8191])  # few chunks: the model's cost is (chunks x length)
+        cases.append(_gen_file(rng, spec, cls, lv, 2, min(maxlen, 20), budget // 2, 6, trail=trail, endseqs=1, under=under))
+    # 7. bytes after the end of the compressed stream (padding, container remainder, plausible-but-wrong sizes): the
+    #    reference stream is still the payload; seeks from the end in every state of the object
+    tl = [0, 1, 2, 100, 5000, 8192, 8193, 16384, 24577, 40000, 70000]
+    for i in range(n_trail):
+        cls, lv = next(combos)
+        kind = _KINDS[i % len(_KINDS)]
+        n = tl[(i // len(_KINDS)) % len(tl)] if i % 3 else rng.randint(1, 70000)
+        cases.append(_gen_file(rng, _spec(rng, kind, n), cls, lv, 1, maxlen, budget, cap, trail=_gen_trail(rng), endseqs=2,
+                               under="tame"))
     return cases
 
 
@@ -568,18 +779,32 @@ def _neighbours(rng, case, k):
     for i in range(k):
         spec = dict(base_spec)
         how = i % 4
-        if how == 1:
+        if spec["kind"] == "segs":
+            segs = [list(x) for x in spec["segs"]]
+            if how == 1 and segs:
+                j = rng.randrange(len(segs))
+                cap_j = _SEG_HEX_CAP if segs[j][0] not in ("run", "period") else _MAX_LEN // 4
+                segs[j][1] = min(cap_j, max(0, segs[j][1] + rng.choice([-2, -1, 1, 2, 8192, -8192])))
+            if how == 2 and segs:
+                segs[rng.randrange(len(segs))][2] = rng.randrange(1 << 30)
+            spec["segs"], spec["length"] = segs, sum(x[1] for x in segs)
+        elif how == 1:
             spec["length"] = max(0, spec["length"] + rng.choice([-2, -1, 1, 2]))
-        if how == 2:
+        elif how == 2:
             spec["seed"] = rng.randrange(1 << 30)
         cls = case["cls"] if how != 3 else rng.choice(["zlib", "gzip"])
         lv = case["level"] if how != 3 else rng.randint(1, 9)
-        c = _gen_file(rng, spec, cls, lv, 4, 40, 80_000_000, 64, stream="main")
+        large = spec["length"] > 100000
+        c = _gen_file(rng, spec, cls, lv, 2 if large else 4, 20 if large else 40, 40_000_000 if large else 80_000_000,
+                      6 if large else 64, stream="main", trail=case.get("trail") if i % 3 else None, endseqs=1,
+                      under=case.get("under") if large else "draw")
         if how == 0 and seq0 and case.get("stream") != "malformed":
             payload = _payload(spec)
             bounds = _bounds(_chunk_lens(_ref_compress(payload, cls, lv), _WBITS[cls]))
             cut = rng.randint(0, len(seq0))
             c["seqs"][0] = [list(o) for o in seq0[:cut]] + _gen_seq(rng, payload, bounds, 12, 20_000_000)
+            if case.get("trail"):
+                c["trail"] = case["trail"]
             c["chunking"], c["wops"] = case["chunking"], case["wops"]
         out.append(c)
     return out
@@ -591,8 +816,17 @@ def _neighbours(rng, case, k):
 def _check_case(case):
     try:
         spec = case["payload"]
-        assert spec["kind"] in _KINDS and isinstance(spec["length"], int) and 0 <= spec["length"] <= 1 << 22
+        assert spec["kind"] in _KINDS + ["segs"] and isinstance(spec["length"], int) and 0 <= spec["length"] <= _MAX_LEN
         assert isinstance(spec["seed"], int)
+        if spec["kind"] == "segs":
+            for seg in spec["segs"]:
+                assert len(seg) == 3 and seg[0] in _SEG_KINDS and isinstance(seg[1], int) and seg[1] >= 0
+                assert isinstance(seg[2], int) and (seg[0] in ("run", "period") or seg[1] <= _SEG_HEX_CAP)
+            assert sum(seg[1] for seg in spec["segs"]) == spec["length"]
+        if case.get("trail"):
+            t = case["trail"]
+            assert t["kind"] in ("zeros", "random", "le32") and isinstance(t["length"], int) and 0 < t["length"] <= 1 << 16
+            assert isinstance(t["seed"], int)
         assert case["cls"] in _WBITS and isinstance(case["level"], int)
         assert case.get("stream", "main") in ("main", "malformed")
         n, off, closed = spec["length"], 0, False
@@ -656,7 +890,7 @@ def _exec_case(case, classes, limit):
     cls = classes[case["cls"]]
     payload = _payload(case["payload"])
     n = len(payload)
-    hexp = _hex(payload)
+    hexp = _ptoken(case["payload"], payload)
     counts, fails, segs, keys = {}, [], [], []
     use_alarm = threading.current_thread() is threading.main_thread()
 
@@ -666,6 +900,8 @@ def _exec_case(case, classes, limit):
     count("files")
     count("stream:" + stream)
     count("len:" + _len_bucket(n))
+    if n > 24577:
+        count("len>24577:" + ("<=70000" if n <= 70000 else "<=1MiB" if n <= _MIB else ">1MiB"))
     count("kind:" + case["payload"]["kind"])
     count("cls:" + case["cls"])
     count("level:%d" % case["level"])
@@ -682,7 +918,7 @@ def _exec_case(case, classes, limit):
             wfail.append((sig, detail))
 
     if use_alarm:
-        signal.setitimer(signal.ITIMER_REAL, limit)
+        signal.setitimer(signal.ITIMER_PROF, limit)
     try:
         w = proxy = None
         try:
@@ -747,10 +983,10 @@ def _exec_case(case, classes, limit):
     except _Hang:
         if len(impl) < len(lines):
             impl.append("hang")
-        wf("write:hangs", f"no answer within {limit} s")
+        wf("write:hangs", f"no answer within {limit} s of CPU time")
     finally:
         if use_alarm:
-            signal.setitimer(signal.ITIMER_REAL, 0)
+            signal.setitimer(signal.ITIMER_PROF, 0)
     for sig, detail in wfail:
         fails.append(dict(signature=sig, case=_reduced(case), detail=detail))
     segs.append(dict(stream="write", lines=lines, impl=impl, seq_index=None, first_oos=None))
@@ -770,12 +1006,43 @@ def _exec_case(case, classes, limit):
         lens = _chunk_lens(rawbytes, _WBITS[case["cls"]], case.get("under"))
         if sum(lens) != n:
             raise core.InfraError("reference compressor round trip failed")
+    trail = _trail_bytes(case.get("trail"), n)
+    if trail:
+        # bytes after the end-of-stream marker: the standard decoder expands the file to the payload and reports them
+        # as unused data; the reference stream stays io.BytesIO(payload)
+        d = zlib.decompressobj(cls.wbits)
+        if d.decompress(rawbytes + trail) != payload or not d.eof or d.unused_data != trail:
+            raise core.InfraError("the standard decoder does not stop at the end of the stream")
+        rawbytes = rawbytes + trail
+        rl = []
+        lens = _chunk_lens(rawbytes, _WBITS[case["cls"]], case.get("under"), rl)
+        if sum(lens) != n:
+            raise core.InfraError("reference decoder round trip with trailing bytes failed")
+    else:
+        rl = []
+        _chunk_lens(rawbytes, _WBITS[case["cls"]], case.get("under"), rl)
+    count("trailing-bytes:" + ("none" if not trail else case["trail"]["kind"] + (":<=8" if len(trail) <= 8 else ":<=512" if len(trail) <= 512 else ":>512")))
+
+    def ratio(i):
+        if not rl[i]:
+            return "-"
+        q = lens[i] / rl[i]
+        return "0" if q == 0 else "<0.5" if q < 0.5 else "<=1.1" if q <= 1.1 else "<=4" if q <= 4 else "<=100" if q <= 100 else \
+            "<=1000" if q <= 1000 else ">1000"
+
+    if rl and not case.get("under"):
+        # decompressed bytes per raw byte of the first / a middle / the last raw block that carries data
+        data = [i for i, x in enumerate(lens) if x] or [0]
+        count("inflation-first-block:" + ratio(data[0]))
+        count("inflation-middle-block:" + (ratio(data[len(data) // 2]) if len(data) > 2 else "-"))
+        count("inflation-last-block:" + ratio(data[-1]))
     bounds = _bounds(lens)
     count("raw-blocks:" + _small_bucket((len(rawbytes) + _BLOCK - 1) // _BLOCK))
     count("underlying-reads:" + ("full" if not case.get("under") else "short<=%s" % ("8" if case["under"] <= 8 else "4096" if case["under"] <= 4096 else "8191+")))
     count("decompressed-chunks:" + _small_bucket(len(lens)))
     count("empty-chunk:" + ("yes" if 0 in lens and n else "no"))
-    count("max-chunk:" + ("<=8192" if max(lens, default=0) <= _BLOCK else "8193-32768" if max(lens) <= 32768 else ">32768"))
+    count("max-chunk:" + ("<=8192" if max(lens, default=0) <= _BLOCK else "8193-32768" if max(lens) <= 32768 else
+                          "32769-1MiB" if max(lens) <= _MIB else ">1MiB"))
     openline = "open " + hexp + "".join(" %d" % x for x in lens)
 
     # ------------------------------------------------------------------ read side
@@ -786,8 +1053,9 @@ def _exec_case(case, classes, limit):
         ref = io.BytesIO(payload)
         f = cls(_under(rawbytes, case.get("under")), "rb")
         readlike = False
+        touched = seen_eof = rewound = False  # the state of the object as far as the reference stream shows it
         if use_alarm:
-            signal.setitimer(signal.ITIMER_REAL, limit)
+            signal.setitimer(signal.ITIMER_PROF, limit)
         try:
             for i, op in enumerate(seq):
                 k = op[0]
@@ -806,14 +1074,20 @@ def _exec_case(case, classes, limit):
                         sig, exp = "read:bytes-differ", _cb("b", e)
                     if len(op) == 1 or op[1] < 0:
                         count("read:to-end")
+                        seen_eof = True
                     elif op[1] and not e:
                         count("read:at-eof")
                     elif any(before < b < before + len(e) for b in bounds):
                         count("read:crosses-chunk-boundary")
+                    if len(op) > 1 and op[1] > len(e):
+                        seen_eof = True
+                    touched = touched or len(op) == 1 or op[1] != 0
                 elif k == "readline":
                     e = ref.readline()
                     if val != ("bytes", e):
                         sig, exp = "readline:bytes-differ", _cb("b", e)
+                    seen_eof = seen_eof or not e.endswith(b"\n")
+                    touched = True
                     count("readline:" + ("empty" if not e else "no-newline" if not e.endswith(b"\n") else
                                          "len1" if len(e) == 1 else "len<=100" if len(e) <= 100 else "len>100"))
                 elif k == "readinto":
@@ -821,6 +1095,8 @@ def _exec_case(case, classes, limit):
                     m = ref.readinto(buf)
                     if val != ("into", m, bytes(buf)):
                         sig, exp = "readinto:bytes-differ", _cb("i", bytes(buf[:m]))
+                    seen_eof = seen_eof or op[1] > m
+                    touched = touched or op[1] != 0
                 elif k == "tell":
                     if val != ("num", before):
                         sig, exp = "tell:position-differs", f"n {before}"
@@ -836,6 +1112,12 @@ def _exec_case(case, classes, limit):
                     if val != ("num", e):
                         sig, exp = "seek:position-differs", f"n {e}"
                     count("seek:whence=%d" % wh)
+                    if wh == 2:
+                        count("seek-from-end:" + ("fresh" if not touched else "eof-seen" if seen_eof else "mid-stream")
+                              + ("+rewound" if rewound else "") + ("+trailing-bytes" if trail else ""))
+                    seen_eof = seen_eof or wh == 2 or t > n
+                    rewound = rewound or t < before
+                    touched = True
                     count("seek:" + ("rewinds" if t < before else "stays" if t == before else "past-end" if t > n else "forward"))
                 else:
                     raise core.InfraError(f"operation {op!r} in a main-stream sequence")
@@ -858,14 +1140,14 @@ def _exec_case(case, classes, limit):
                 impl.append("hang")
             if stream == "main" and first_oos is None:
                 fails.append(dict(signature="op-hangs", case=_reduced(case, si, len(lines) - 2),
-                                  detail=f"no answer within {limit} s"))
+                                  detail=f"no answer within {limit} s of CPU time"))
         finally:
             if use_alarm:
-                signal.setitimer(signal.ITIMER_REAL, 0)
+                signal.setitimer(signal.ITIMER_PROF, 0)
         segs.append(dict(stream=stream, lines=lines, impl=impl, seq_index=si, first_oos=first_oos))
         count("seq-len:" + ("1-5" if len(seq) <= 5 else "6-25" if len(seq) <= 25 else "26-100" if len(seq) <= 100 else "101-200"))
         if n and readlike and stream == "main":
-            key = json.dumps([case["payload"], case["cls"], case["level"], case["chunking"], seq], sort_keys=True)
+            key = json.dumps([case["payload"], case["cls"], case["level"], case["chunking"], case.get("trail"), seq], sort_keys=True)
             keys.append(hashlib.sha1(key.encode()).hexdigest()[:20])
     return dict(segs=segs, fails=fails, counts=counts, keys=keys)
 
@@ -878,7 +1160,7 @@ def _run_batch(arg):
 
     classes = dict(zlib=BinaryZlibFile, gzip=BinaryGzipFile)
     if threading.current_thread() is threading.main_thread():
-        signal.signal(signal.SIGALRM, _on_alarm)
+        signal.signal(signal.SIGPROF, _on_alarm)  # CPU time of this process: a loaded machine is not a hang
     out = dict(fails=[], divs=[], counts={}, keys=[], evals=0, traces=0)
     recs, lines = [], []
     for case in cases:
@@ -917,7 +1199,7 @@ def _run_batch(arg):
 
 def _describe(case):
     return dict(payload=case["payload"], cls=case["cls"], level=case["level"], chunking=case["chunking"][:8],
-                n_chunks=len(case["chunking"]), stream=case.get("stream", "main"),
+                n_chunks=len(case["chunking"]), stream=case.get("stream", "main"), trail=case.get("trail"),
                 first_sequence=[list(o) for o in (case["seqs"][0][:10] if case["seqs"] else [])])
 
 
